@@ -1,10 +1,11 @@
 #!/bin/sh
-# usage: tools/cq.sh <worktree name, e.g. C05 or C05b> [extra props]  - queue confirmation of the seeds of an agent (serialised with flock)
+# usage: [LANE=a|b] tools/cq.sh <worktree name, e.g. C05 or C05b> [extra props]  - queue confirmation of the seeds of an agent (serialised per lane with flock)
 W=$1; shift
 P=$(echo $W | cut -c1-3)
+L=${LANE:-a}
 mkdir -p /tmp/cflogs
 for k in 1 2 3; do
   if [ -f /tmp/wt/$W/OUT/$k/patch.diff ]; then
-    ( flock /tmp/cf.lock python3 /verif/tools/confirm_seed.py /tmp/wt/$W/OUT/$k $W-$k $P "$@" > /tmp/cflogs/$W-$k.json 2>&1 ) &
+    ( flock /tmp/cf.lock.$L python3 /verif/tools/confirm_seed.py /tmp/wt/$W/OUT/$k $W-$k $P "$@" > /tmp/cflogs/$W-$k.json 2>&1 ) &
   fi
 done
